@@ -5,7 +5,7 @@ import json, shutil, sys
 from pathlib import Path
 
 VERIF = Path(__file__).resolve().parent.parent
-SRCS = [Path(p) for p in ("/tmp/seed/out", "/tmp/seed/out2", "/tmp/seed/out3", "/tmp/seed/out4", "/tmp/seed/out5")]
+SRCS = [Path(p) for p in ("/tmp/seed/out", "/tmp/seed/out2", "/tmp/seed/out3", "/tmp/seed/out4", "/tmp/seed/out5", "/tmp/seed/out6")]
 
 results = {}
 for f in sys.argv[1:]:
